@@ -14,15 +14,15 @@ package topics
 //@ func (t *Topic) Publish
 //@   requires lock_free_on_entry: !held(t.mu)
 //@   lockcheck
-//@   modifies *
+//@   modifies heap
 //@ func (t *Topic) Last
 //@   requires lock_free_on_entry: !held(t.mu)
 //@   lockcheck
-//@   modifies *
+//@   modifies heap
 //@ func (t *Topic) Subscribe
 //@   requires lock_free_on_entry: !held(t.mu)
 //@   lockcheck
-//@   modifies *
+//@   modifies heap
 // Publish holds Topic.mu for the whole delivery and blocks sending to every
 // subscriber. A subscriber that waits for Topic.mu must therefore keep
 // receiving from its channel, or publisher and subscriber wait for each other
@@ -36,13 +36,13 @@ package topics
 //@   goroutine
 //@   ghost draining := 1
 //@   lockcheck
-//@   modifies *
+//@   modifies heap
 //@ func (s *Subscription) Channel
 //@   requires lock_free_on_entry: !held(s.mu)
 //@   lockcheck
-//@   modifies *
+//@   modifies heap
 //@ func (s *Subscription) Close
 //@   requires lock_free_on_entry: !held(s.mu)
 //@   requires topic_lock_free_on_entry: !held(s.topic.mu)
 //@   lockcheck
-//@   modifies *
+//@   modifies heap
